@@ -57,6 +57,13 @@ def check(res, tier):
     st2 = evalcorr.judge_programs(res, ddp, model, full, cfgs, "random")
     mini = random_programs(sd + 7919, n_min, depth=3)
     st3 = evalcorr.judge_programs(res, ddp, model, mini, cfgs[:1] if quick else cfgs[1:2], "random-minimal", minimal=True)
+    # what a call does with its arguments (value parameters are copies taken at the call, Referenz parameters are the
+    # caller's storage) is part of the evaluation rules at every optimisation level: the call rows of the aliasing matrix
+    from . import C08
+    calls = [p for lab, p in C08.programs() if any(k in lab for k in ("-arg", "global-", "readonly", "silent", "part-ref", "ref-twice", "ref-and-value", "return"))]
+    if quick:
+        calls = calls[sd % 2::2]
+    st4 = evalcorr.judge_programs(res, ddp, model, calls, [pipeline.Config(opt=2), pipeline.Config(opt=0)] if quick else cfgs, "calls", max_report=3)
     evalcorr.report_broken(res, broken)
     hist = Counter()
     for p in full + mini:
@@ -64,13 +71,14 @@ def check(res, tier):
     res.extra.update({"matrix_cells": nsingles, "matrix_cell_outcomes": dict(cells), "matrix_batches": len(mprogs),
                       "random_programs": len(full), "random_programs_minimal_parentheses": len(mini),
                       "configs": [c.name() for c in cfgs], "outcomes_matrix": dict(st), "outcomes_random": dict(st2),
-                      "outcomes_random_minimal": dict(st3),
+                      "outcomes_random_minimal": dict(st3), "call_programs": len(calls), "outcomes_calls": dict(st4),
                       "input_distribution": dict(sorted(hist.items(), key=lambda kv: -kv[1])[:60])})
     res.rule = ("every admissible (operator, operand types) cell with boundary operands (64-bit extremes, 0/1/-1, Byte 0..255, "
                 "multi-byte code points, empty and short lists), and random well-typed programs (declarations, assignments to "
                 "variables / list elements / fields, all loop forms with Verlasse/Fahre fort, functions with value and Referenz "
                 "parameters, Kombinationen, Variable, conversions) printed fully parenthesised and with minimal parentheses: "
-                "stdout, exit status and Laufzeitfehler of the compiled program against the L2 evaluator")
+                "stdout, exit status and Laufzeitfehler of the compiled program against the L2 evaluator; the call rows of the aliasing matrix "
+                "(value / Referenz / global / read-only parameters) at -O 0 and -O 2")
     res.assumptions += ["programs whose evaluation hits an LLVM-undefined operation (modulo 0, shift >= width, Kommazahl out of the "
                         "integer range, Buchstabe outside Unicode, negative repeat counts) are generated but not judged",
                         "LLVM, the C compiler and libc (printf %.16g, pow) are trusted"]
